@@ -215,6 +215,36 @@ func (env *historyEnv) targets(asset string, now int64) []target {
 			}
 		}
 	}
+	// refused requests are responses too: the same status and body whenever and wherever they are asked
+	bad := func(fam string, opts map[string]string, rest string) { ts = append(ts, mk("error-"+fam, opts, rest)) }
+	bad("bad-value", map[string]string{"numbering": "tsbd_x/"}, "Manifest.mpd")
+	bad("bad-value-media", map[string]string{"ato": "ato_minus/"}, fmt.Sprintf("V300/%d.m4s", n))
+	bad("unknown-option", map[string]string{"numbering": "nosuchoption_1/"}, "Manifest.mpd")
+	bad("stop-before-start", map[string]string{"session": "start_100/stop_50/"}, "Manifest.mpd")
+	bad("stop-before-start-media", map[string]string{"session": "start_100/stop_50/"}, fmt.Sprintf("V300/%d.m4s", n))
+	bad("stoprel-before-startrel", map[string]string{"session": "startrel_-20/stoprel_-40/"}, "Manifest.mpd")
+	bad("before-start", map[string]string{"session": fmt.Sprintf("start_%d/", now/1000+3600)}, "Manifest.mpd")
+	bad("after-stop-media", map[string]string{"session": fmt.Sprintf("stop_%d/", now/1000-3600)}, fmt.Sprintf("V300/%d.m4s", n))
+	bad("unknown-mpd", nil, "Nosuch.mpd")
+	bad("unknown-rep", nil, fmt.Sprintf("nosuchrep/%d.m4s", n))
+	bad("unknown-init", nil, "nosuchrep/init.mp4")
+	bad("segment-not-a-number", nil, "V300/abc.m4s")
+	bad("unknown-drm", map[string]string{"protection": "drm_nosuchpackage/"}, "V300/init.mp4")
+	bad("unknown-eccp-scheme", map[string]string{"protection": "eccp_xyz/"}, fmt.Sprintf("V300/%d.m4s", n))
+	bad("bad-statuscode", map[string]string{"fault": "statuscode_[{cycle:0}]/"}, fmt.Sprintf("V300/%d.m4s", n))
+	bad("bad-periods", map[string]string{"periods": "periods_0/"}, "Manifest.mpd")
+	bad("unknown-subtitle-language", map[string]string{"timesubs": "timesubsstpp_en/"}, fmt.Sprintf("timestpp-xx/%d.m4s", n))
+	{
+		ua := mk("error-unknown-asset", nil, "Manifest.mpd")
+		ua.Asset = asset + "_nosuch"
+		pp := mk("error-patch-without-publishtime", map[string]string{"patch": "patch_60/", "mode": "segtimeline_1/"}, "Manifest.mpp")
+		pp.Patch = true
+		pb := mk("error-patch-bad-publishtime", map[string]string{"patch": "patch_60/", "mode": "segtimeline_1/"}, "Manifest.mpp")
+		pb.Patch, pb.Query = true, "publishTime=yesterday"
+		pm := mk("error-patch-of-a-segment", map[string]string{"patch": "patch_60/"}, fmt.Sprintf("V300/%d.m4s", n))
+		pm.Patch, pm.Query = true, "publishTime=1970-01-01T00:00:10Z"
+		ts = append(ts, ua, pp, pb, pm)
+	}
 	// the end of a time-limited session lies between the old publishTime and now: the MPD turns static
 	stopS := (now - 3000) / 1000
 	sess := map[string]string{"session": fmt.Sprintf("stop_%d/", stopS), "presentation": "spd_10/", "mode": "segtimeline_1/"}
@@ -433,6 +463,9 @@ func (env *historyEnv) histories(ts []target) []history {
 	var hs []history
 	for _, t := range ts {
 		for _, k := range env.kindList {
+			if strings.HasPrefix(t.Family, "error-") && k != "repeat" && k != "time" && k != "sibling" && k != "form" && k != "protection" {
+				continue // refused requests: repeats, other instants, siblings, other forms, other protection
+			}
 			nb := env.neighbours(t, k)
 			if len(nb) == 0 {
 				continue
@@ -476,6 +509,29 @@ func refChild(args []string) {
 }
 
 // freshAnswers asks every URL of a brand-new server in a brand-new process.
+// childEnv: "which server instance answers" includes the environment its process runs in. Process 0
+// inherits the harness's environment; the others get another time zone, locale, working directory
+// and number of processors.
+func childEnv(cmd *exec.Cmd, k int, root string) string {
+	variants := [][]string{
+		nil,
+		{"TZ=Asia/Kolkata", "LANG=sv_SE.UTF-8", "LC_ALL=sv_SE.UTF-8", "GOMAXPROCS=2"},
+		{"TZ=America/Los_Angeles", "LANG=C", "LC_ALL=C", "GOMAXPROCS=1"},
+		{"TZ=Europe/Stockholm", "LANG=ja_JP.UTF-8", "LC_ALL=ja_JP.UTF-8", "GOMAXPROCS=64"},
+	}
+	v := variants[k%len(variants)]
+	if v == nil {
+		return "environment of the harness"
+	}
+	cmd.Env = append(os.Environ(), v...)
+	if k%2 == 1 {
+		cmd.Dir = os.TempDir()
+	} else {
+		cmd.Dir = root
+	}
+	return strings.Join(v, " ") + " cwd=" + cmd.Dir
+}
+
 func freshAnswers(env *historyEnv, urls []string) (map[string]proj, error) {
 	out, _, err := freshAnswersN(env, urls, 1)
 	return out, err
@@ -510,7 +566,9 @@ func freshAnswersN(env *historyEnv, urls []string, procs int) (out map[string]pr
 			for j := range work {
 				u := j.u
 				arg, _ := json.Marshal(refIn{Root: env.root, DRM: env.hasDRM, URL: u})
-				res, err := exec.Command(exe, "refchild", string(arg)).Output()
+				cmd := exec.Command(exe, "refchild", string(arg))
+				envName := childEnv(cmd, j.k, env.root)
+				res, err := cmd.Output()
 				var ps []proj
 				ok := false
 				for _, line := range strings.Split(string(res), "\n") {
@@ -529,7 +587,7 @@ func freshAnswersN(env *historyEnv, urls []string, procs int) (out map[string]pr
 					}
 					for i, p := range ps {
 						if p != out[u] && unstable[u] == "" {
-							unstable[u] = fmt.Sprintf("fresh process %d, serving %d: %v; another serving: %v", j.k, i, p, out[u])
+							unstable[u] = fmt.Sprintf("fresh process %d (%s), serving %d: %v; another serving: %v", j.k, envName, i, p, out[u])
 						}
 					}
 				}
@@ -672,7 +730,7 @@ func runHistories(c *lib.Ctx) (int, error) {
 	byFam := map[string][]target{}
 	var fams []string
 	for _, t := range ts {
-		if _, ok := byFam[t.Family]; !ok {
+		if _, ok := byFam[t.Family]; !ok && !strings.HasPrefix(t.Family, "error-") {
 			fams = append(fams, t.Family)
 			byFam[t.Family] = env.variants(t)
 		}
